@@ -92,3 +92,8 @@ CLAIMS["C17"] = {
     "note": "Span shapes are a compiled family (tracing needs static callsites); field-name collisions across levels are deliberate.",
     "technique": "runtime monitoring: logging recorder beneath TracingContextLayer, compared per emission with a reference span-label model over generated span scripts",
 }
+CLAIMS["C18"] = {
+    "text": "Exploration with fault injection: real HTTP listeners are scraped from harness sockets bound to chosen loopback source addresses inside, outside and at the edges of allow-listed networks; 403/empty-body versus 200 is decided against an independent CIDR reference, 200 bodies must be strict-parser-valid renderings whose values lie between the state before the request and after the response, /health must say OK, and well-formed clients must still be served after garbage, half-open, reset and concurrent connections. The builder must accept every documented allowlist syntax.",
+    "note": "Only IPv4 loopback peers can be produced in this sandbox; IPv6 entries are exercised as non-matching entries only.",
+    "technique": "runtime monitoring: socket-level client harness with scripted faults + HTTP response decoder + CIDR reference model + exposition parser",
+}
